@@ -50,6 +50,8 @@ class SymBytes:
     # construction helper: return real bytes when everything is concrete
     @classmethod
     def make(cls, lst):
+        if cls.mutable:
+            return cls(lst)     # stays a proxy: later writes may be symbolic
         c = _maybe_concrete(lst, cls.mutable)
         return c if c is not None else cls(lst)
 
@@ -354,14 +356,23 @@ class SymStr:
     def __lt__(self, o):
         return self._lex(o) < 0
 
+    def _cmp1(self, o):
+        """(a, b) code points when both sides are single characters (comparison without forking)"""
+        if len(self.cps) == 1 and _real_isinstance(o, (SymStr, str)) and len(o) == 1:
+            return self.cps[0], self._cps(o)[0]
+        return None
+
     def __le__(self, o):
-        return self._lex(o) <= 0
+        p = self._cmp1(o)
+        return p[0] <= p[1] if p else self._lex(o) <= 0
 
     def __gt__(self, o):
-        return self._lex(o) > 0
+        p = self._cmp1(o)
+        return p[0] > p[1] if p else self._lex(o) > 0
 
     def __ge__(self, o):
-        return self._lex(o) >= 0
+        p = self._cmp1(o)
+        return p[0] >= p[1] if p else self._lex(o) >= 0
 
     def _lex(self, o):
         oc = self._cps(o)
